@@ -8,6 +8,7 @@ import (
 	"io"
 	"net/http"
 	"strings"
+	"sync"
 	"testing"
 
 	connect "github.com/bufbuild/connect-go"
@@ -98,6 +99,7 @@ func c13Handler(kind Kind, rec *c13Recorder, opts ...connect.HandlerOption) *con
 // c13Recorder keeps live references handed to user code next to deep copies
 // taken on receipt; they must still agree at the end.
 type c13Recorder struct {
+	mu       sync.Mutex
 	live     [][]byte
 	copies   [][]byte
 	labels   []string
@@ -118,12 +120,16 @@ func (r *c13Recorder) retainErr(label string, err error) {
 	if err == nil {
 		return
 	}
+	r.mu.Lock()
+	defer r.mu.Unlock()
 	r.errs = append(r.errs, err)
 	r.errMeta = append(r.errMeta, errMetaString(err))
 	r.errLabel = append(r.errLabel, label)
 }
 
 func (r *c13Recorder) retain(label string, b []byte) {
+	r.mu.Lock()
+	defer r.mu.Unlock()
 	r.live = append(r.live, b)
 	r.copies = append(r.copies, cloneBytes(b))
 	r.labels = append(r.labels, label)
@@ -323,6 +329,9 @@ func c13Expected(kind Kind, call int, spec c13Call) (msgs [][]byte, failed bool)
 	if spec.ErrCode != 0 {
 		return nil, true
 	}
+	if !kind.ClientStreams() && len(pay) > 1 {
+		pay = pay[:1] // single-request kinds send only the first payload
+	}
 	if kind.ServerStreams() {
 		for _, p := range pay {
 			msgs = append(msgs, append([]byte{'r'}, p...))
@@ -391,6 +400,13 @@ func c13Scenarios(thorough bool) []c13Case {
 		subs := 4
 		for sub := 0; sub < subs; sub++ {
 			out = append(out, c13Case{Name: name, Cfg: cfg, Calls: calls, OneBidi: onebidi, Bound: 1, Sub: sub, Subs: subs})
+		}
+		if thorough && !strings.HasPrefix(name, "t-") {
+			// every pair of delays for the base scenarios
+			subs2 := 32
+			for sub := 0; sub < subs2; sub++ {
+				out = append(out, c13Case{Name: name + "@d2", Cfg: cfg, Calls: calls, OneBidi: onebidi, Bound: 2, Sub: sub, Subs: subs2})
+			}
 		}
 	}
 	small := c13Call{Sizes: []int{3}}
@@ -481,7 +497,7 @@ func TestC13(t *testing.T) {
 		return
 	}
 	thorough := ev.Thorough()
-	c.Bound("delay_bound", 1)
+	c.Bound("delay_bound", map[bool]string{false: "1", true: "1 for all scenarios, 2 for the eight base scenarios"}[thorough])
 	c.Bound("threads", map[bool]string{false: "2", true: "2 (one scenario with 3)"}[thorough])
 	cases := c13Scenarios(thorough)
 	for i, k := range cases {
